@@ -132,6 +132,8 @@ class Interp:
         if isinstance(e, ast.Constant):
             return e.value
         if isinstance(e, ast.Name):
+            if e.id not in self.env and e.id in ("list", "dict", "set", "tuple", "int", "str", "float", "bool"):
+                return {"list": list, "dict": dict, "set": set, "tuple": tuple, "int": int, "str": str, "float": float, "bool": bool}[e.id]
             return self.env.get(e.id, U)
         if isinstance(e, (ast.Tuple, ast.List, ast.Set)):
             vals = []
@@ -432,6 +434,16 @@ class Interp:
                         if r is U:
                             return U
                         rev = bool(r)
+                    elif k.arg == "key" and isinstance(k.value, ast.Call) and isinstance(k.value.func, (ast.Name, ast.Attribute)) and \
+                            (k.value.func.id if isinstance(k.value.func, ast.Name) else k.value.func.attr) in ("itemgetter", "attrgetter") and \
+                            len(k.value.args) == 1 and isinstance(k.value.args[0], ast.Constant):
+                        sel_ = k.value.args[0].value
+                        by_attr = (k.value.func.id if isinstance(k.value.func, ast.Name) else k.value.func.attr) == "attrgetter"
+
+                        def keyf(x, sel_=sel_, by_attr=by_attr):
+                            return x[sel_]
+                    elif k.arg == "key" and isinstance(self.ev(k.value), Native):
+                        keyf = self.ev(k.value).fn          # key=ns.get_name: a modelled callable
                     elif k.arg == "key" and isinstance(k.value, ast.Lambda) and len(k.value.args.args) == 1 and not k.value.args.defaults:
                         lam = k.value
 
@@ -502,6 +514,8 @@ class Interp:
             if recv is U:
                 return U
             meth = f.attr
+            if recv is dict and meth == "fromkeys" and 1 <= len(args) <= 2:
+                return dict.fromkeys(list(args[0]), args[1] if len(args) == 2 else None)
             if isinstance(recv, NS):
                 h = recv.get(meth, U)
                 return h.fn(*args) if isinstance(h, Native) else U
